@@ -16,6 +16,7 @@ env.setup()
 
 from ..cli import run_cli  # noqa: E402
 from ..core import digest, short_exc  # noqa: E402
+from ..logctx import package_logger_at_debug  # noqa: E402
 from ..screens import make_screen, snapshot  # noqa: E402
 
 from batchie import retrospective as R  # noqa: E402
@@ -51,8 +52,8 @@ RULE = (
 )
 SCHEDULES = [(1, 0), (2, 0), (1, 1), (9, 7)]
 BOUNDS = {
-    "quick": {"seeds": [0, 1, 12], "schedules": SCHEDULES, "inputs_per_operation": 2, "cross_process": "12 library operations x 2 inputs x 2 seeds in 2 interpreters with different PYTHONHASHSEED"},
-    "thorough": {"seeds": [0, 1, 2, 12, 2**32 - 1], "schedules": SCHEDULES + [(123456, 3), (0, 100)], "inputs_per_operation": 3},
+    "quick": {"seeds": [0, 1, 12], "schedules": SCHEDULES, "logging": "default (silenced) for every schedule; the first schedule once more with the package logger at DEBUG", "inputs_per_operation": 2, "cross_process": "12 library operations x 2 inputs x 2 seeds in 2 interpreters with different PYTHONHASHSEED"},
+    "thorough": {"seeds": [0, 1, 2, 12, 2**32 - 1], "schedules": SCHEDULES + [(123456, 3), (0, 100)], "logging": "as quick", "inputs_per_operation": 3},
 }
 ASSUMPTIONS = [
     "numpy Generators seeded identically produce identical streams (trusted)",
@@ -617,8 +618,11 @@ def plan(tier, seed):
     return items
 
 
-def one_run(fn, seed, variant, gseed, k, tmp):
+def one_run(fn, seed, variant, gseed, k, tmp, debug=False):
     """Returns (output, hits, state_changed, exception)."""
+    if debug:
+        with package_logger_at_debug():
+            return one_run(fn, seed, variant, gseed, k, tmp)
     np.random.seed(gseed)
     pyrandom.seed(gseed)
     for _ in range(k):
@@ -653,11 +657,13 @@ def run_item(item, col, tier):
         for seed in b["seeds"]:
             outs = []
             refused = False
-            for gseed, k in b["schedules"]:
-                out, hits, changed, exc = one_run(fn, seed, item["variant"], gseed, k, tmp)
+            # the last run repeats the first schedule with the package logger at DEBUG (what --verbose sets): logging
+            # configuration is not an input of the operation
+            for gseed, k, dbg in [(g_, k_, False) for g_, k_ in b["schedules"]] + [(b["schedules"][0][0], b["schedules"][0][1], True)]:
+                out, hits, changed, exc = one_run(fn, seed, item["variant"], gseed, k, tmp, debug=dbg)
                 col.evaluations += 1
                 col.transitions += 1
-                case = {"op": item["op"], "variant": item["variant"], "seed": seed, "schedule": [gseed, k]}
+                case = {"op": item["op"], "variant": item["variant"], "seed": seed, "schedule": [gseed, k], "debug_logging": dbg}
                 for site, label in sorted(set(hits)):
                     col.violation(f"C18|callsite|{site}|{label}",
                                   f"{item['op']}: batchie code at {site} calls the process-global {label}", case)
@@ -671,7 +677,7 @@ def run_item(item, col, tier):
                     col.refused += 1
                     col.outcome("refused", item["op"], type(exc).__name__)
                     continue
-                outs.append(((gseed, k), digest(out)))
+                outs.append(((gseed, k) if not dbg else (gseed, k, "logger at DEBUG"), digest(out)))
             if refused or not outs:
                 continue
             ref = outs[0][1]
@@ -716,8 +722,9 @@ def replay(case, col):
     fn = operations("thorough")[case["op"]]
     tmp = env.scratch_dir("c18r")
     try:
-        g, k = case["schedule"]
-        out, hits, changed, exc = one_run(fn, case["seed"], case["variant"], g, k, tmp)
+        g, k = case["schedule"][0], case["schedule"][1]
+        dbg = len(case["schedule"]) > 2 or bool(case.get("debug_logging"))
+        out, hits, changed, exc = one_run(fn, case["seed"], case["variant"], g, k, tmp, debug=dbg)
         col.evaluations += 1
         if exc is not None:
             print("operation raised:", short_exc(exc))
